@@ -1,6 +1,7 @@
 import TaskModel.Sched.Model
 import TaskModel.Sched.Monitors
 import TaskModel.Sched.Verdicts
+import TaskModel.Sched.DeadlockLemmas
 import Driver.Util
 /-!
 `sched.run F <cap|-> <parallel> <force> <forceAll> <yes> <maxCalls>
@@ -134,6 +135,10 @@ def doRun (args : List String) : Option String := do
   match replayIdx cs.prog cs.F (init cs.calls.length) cs.trace 0 with
   | .error i => some s!"reject step={i} {verdicts}"
   | .ok c =>
+    if cs.result = .typed 999 then
+      -- the run never returned: explained iff the configuration reached accepts no label at all
+      -- (`S7.deadlocked_sound`); only cycles through a deduplicated task can get there (`C07_no_deadlock`)
+      (if S7.deadlocked c then some s!"deadlock {verdicts}" else some s!"reject hang-but-not-deadlocked {verdicts}") else
     match finalCheck cs.prog cs.F cs.calls c cs.result with
     | some why => some s!"reject final {why} {verdicts}"
     | none => some s!"accept {verdicts}"
